@@ -148,7 +148,12 @@ NOINST int bus_wait_quiescent(int max_ms) {
 		pthread_cond_timedwait(&bcond_idle, &bmx, &ts);
 	}
 	__real_pthread_mutex_unlock(&bmx);
-	if (rc) ev("\"e\":\"quiesce_timeout\",\"ms\":%d", max_ms);
+	if (rc) {
+		extern int mon_receiver_blocked(void);
+		int blocked = mon_receiver_blocked();       /* waiting for a lock somebody holds: not a matter of machine load */
+		if (blocked) mon_dump_all("receiver-blocked");
+		ev("\"e\":\"quiesce_timeout\",\"ms\":%d,\"receiver_blocked\":%d", max_ms, blocked);
+	}
 	return rc;
 }
 
